@@ -45,7 +45,8 @@ PROPS = {
                 second=dict(engine="e2", rule="e2-frame", external=True, replay_attempts=10, share=0.4)),
     "C24": dict(engine="e1", level="exploration", rule="e1-book"),
     "C25": dict(engine="e1", level="exploration", rule="e1-gate"),
-    "C26": dict(engine="e6", level="exploration", rule="e6-pex"),
+    "C26": dict(engine="e6", level="exploration", rule="e6-pex",
+                second=dict(engine="e6", job_property="C26c", rule="e6-conc", share=0.35)),
     "C17": dict(engine="e3", level="exploration", rule="e3-derive"),
     "C18": dict(engine="e3", level="exploration", rule="e3-encrypt"),
     "C19": dict(engine="e3", level="exploration", rule="e3-service"),
@@ -102,6 +103,12 @@ RULES = {
               "RemovePeer, retry bookkeeping, SetHasIncomingPort/Random/Trusted, one-by-one filling, clock advances of a minute to 30 days (stale sweep every 10 simulated "
               "minutes), shutdown + reload (sometimes on a truncated peers file); after every operation every listed address is validated independently, the bound is "
               "checked after bulk adds and every configured trusted peer must be present and trusted; non-trivial = at least 5 checks",
+    "e6-conc": "one run = a real pex.New (max 2-10, 0-2 trusted defaults, some peers added beforehand) with its real Run goroutine and 2-4 actor goroutines running 1-5 scripted "
+               "operations each (AddPeers of 1 / 2 / max / 2*max / 40 fresh valid addresses, sometimes with an invalid or an already known one, AddPeer, RemovePeer, retry bookkeeping, "
+               "SetHasIncomingPort, Random/Trusted/ResetAllRetryTimes) at the same time; every acquisition of the peer list lock (hook H10: sync.RWMutex semantics, waiters block "
+               "durably) and every gap between two operations is a scheduling point decided by the tape, as are clock advances of a minute to 8 days (stale sweep of the Run "
+               "goroutine, eviction age); at every quiescent point (nobody holds the lock) every listed address is validated independently, the list must not exceed its maximum and "
+               "every configured trusted peer must be present and trusted; non-trivial = at least 4 scheduled lock acquisitions",
     "e2-pool": "one run = one real gnet.ConnectionPool (limits 1-3 outgoing / 1-3 incoming, write queue 1-16, send-result queue 1-64, read/write timeouts 0-3 s) started with "
                "Run on a simulated listener; 2-4 caller goroutines issue 2-7 operations each (SendMessage, BroadcastMessage, Disconnect, GetConnections, GetConnection, Size, "
                "SendPings, GetStaleConnections, Connect, draining SendResults), 0-4 incoming and any number of outgoing simulated connections whose scripted peers write "
